@@ -288,3 +288,18 @@ Proof.
     apply Forall_forall. intros x Hx. specialize (Hmn x Hx). split; [lia|].
     pose proof (N.size_gt (list_max vals - list_min vals)). lia.
 Qed.
+
+(* the hypotheses are inhabited *)
+Example uintvector_strategy_example :
+  let vals := [1000; 1003; 1001; 1007; 1000] in
+  vals <> [] /\ Forall (fun v => v < W32c) vals /\ ucovers (UMinMax 1000 3) vals /\
+  match uv_build_with (UMinMax 1000 3) vals with
+  | IOk v => map (fun i => uv_get v i) [0; 3; 4; 5] = [IOk (Some 1000); IOk (Some 1007); IOk (Some 1000); IOk None]
+  | _ => False
+  end.
+Proof.
+  cbv zeta. split; [discriminate|]. split; [repeat constructor|]. split.
+  - cbn [ucovers]. split; [lia|]. repeat (apply Forall_cons; [split; [vm_compute; discriminate|vm_compute; reflexivity]|]). apply Forall_nil.
+  - vm_compute. reflexivity.
+Qed.
+
